@@ -17,6 +17,48 @@ def _flatten_add(sym):
     return [sym]
 
 
+STRING_OPS = {'strip', 'lstrip', 'rstrip', 'split', 'rsplit', 'startswith', 'endswith', 'lower', 'upper', 'partition', 'find', 'index', 'replace'}
+
+
+def sanitiser_first(repo, f):
+    """(number of string operations on the text parameter, events where the parameter is operated on before no_color)."""
+    pname = [a for a in f.params() if a != 'self'][0]
+    nops = 0
+    bad = []
+    seen = set()
+    for p in paths_of(repo, f, asserts='ignore'):
+        for e in p.events:
+            operand = None
+            if e.kind == 'call' and isinstance(e.node.func, ast.Attribute) and e.node.func.attr in STRING_OPS and e.recv is not None:
+                operand = e.recv
+            elif e.kind == 'call' and e.ftext in ('re.split', 're.match', 're.search', 're.findall') and len(e.args) > 1:
+                operand = e.args[1]
+            elif e.kind == 'load-sub':
+                operand = e.recv
+            elif e.kind == 'decide' and e.extra is not None and isinstance(e.extra.sym, ast.Compare):
+                operand = e.extra.sym
+            if operand is None:
+                continue
+            if not any(isinstance(x, ast.Name) and x.id == pname for x in ast.walk(operand)):
+                continue
+            nops += 1
+            ok = True
+
+            def walk(n_, under):
+                nonlocal ok
+                if isinstance(n_, ast.Call) and isinstance(n_.func, ast.Name) and n_.func.id == 'no_color':
+                    under = True
+                if isinstance(n_, ast.Name) and n_.id == pname and not under:
+                    ok = False
+                for c in ast.iter_child_nodes(n_):
+                    walk(c, under)
+            walk(operand, False)
+            if not ok and id(e.node) not in seen:
+                seen.add(id(e.node))
+                bad.append(e)
+    return nops, bad
+
+
 def run(ctx):
     repo = ctx.repo
     ef = effects(repo)
@@ -225,45 +267,14 @@ def run(ctx):
     ctx.floor('C17.4', nlay, 10, 'layout computations examined')
 
     # ---- C17.5 -----------------------------------------------------------------------------------------------
-    STRING_OPS = {'strip', 'lstrip', 'rstrip', 'split', 'rsplit', 'startswith', 'endswith', 'lower', 'upper', 'partition', 'find', 'index', 'replace'}
     for q in ('matcher.parse', 'Controller.process_command'):
         f = repo.func(q)
-        pname = [a for a in f.params() if a != 'self'][0]
-        nops = 0
-        for p in paths_of(repo, f, asserts='ignore'):
-            for e in p.events:
-                operand = None
-                if e.kind == 'call' and isinstance(e.node.func, ast.Attribute) and e.node.func.attr in STRING_OPS and e.recv is not None:
-                    operand = e.recv
-                elif e.kind == 'call' and e.ftext in ('re.split', 're.match', 're.search', 're.findall') and len(e.args) > 1:
-                    operand = e.args[1]
-                elif e.kind == 'load-sub':
-                    operand = e.recv
-                elif e.kind == 'decide' and e.extra is not None and isinstance(e.extra.sym, ast.Compare):
-                    operand = e.extra.sym
-                if operand is None:
-                    continue
-                uses_param = [x for x in ast.walk(operand) if isinstance(x, ast.Name) and x.id == pname]
-                if not uses_param:
-                    continue
-                nops += 1
-                # every occurrence of the parameter inside the operand must sit under a no_color(...) call
-                def covered(root):
-                    ok = True
-
-                    def walk(n_, under):
-                        nonlocal ok
-                        if isinstance(n_, ast.Call) and isinstance(n_.func, ast.Name) and n_.func.id == 'no_color':
-                            under = True
-                        if isinstance(n_, ast.Name) and n_.id == pname and not under:
-                            ok = False
-                        for c in ast.iter_child_nodes(n_):
-                            walk(c, under)
-                    walk(root, False)
-                    return ok
-                ctx.check(covered(operand), 'C17.5', 'input:%s:strip-before-tokenise' % f.name, f.loc(e.node),
-                          '%s removes colour from the pasted text before any string operation on it' % f.name,
+        nops, bad = sanitiser_first(repo, f)
+        for e in bad:
+            ctx.violation('C17.5', 'input:%s:strip-before-tokenise' % f.name, f.loc(e.node),
                           '%s tokenises the raw text before removing colour (%s): coloured text is not understood like its plain form' % (f.name, norm(e.node)[:80]))
+        if not bad:
+            ctx.ok('C17.5', f.loc(), 'input:%s' % f.name, '%s removes colour from the pasted text before any string operation on it (%d operations examined)' % (f.name, nops))
         ctx.floor('C17.5', nops, 2, 'string operations on the pasted text in ' + q)
     return ('enumeration of escape literals and switch reads, path enumeration of color() with symbolic string pieces, abstract evaluation of all colour '
             'codes and automata inclusion in no_color\'s pattern, taint of coloured text into layout computations, sanitiser ordering on the input side. '
